@@ -47,6 +47,7 @@ INF = float("inf")
 RF = ("newton", "broyden1", "broyden2", "linearmixing")
 BCKS = ("default", "exactsolve", "cg", "bicgstab", "gmres", "broyden1")
 PLACEMENTS = ("explicit", "nnmodule", "editable", "editable_derived", "mixed", "twice", "held_twice")
+# + editable_ndfirst / editable_ndlast / nnmodule_ndfirst / nnmodule_ndlast (separate block of cases())
 
 
 def _methods(functional):
@@ -123,6 +124,16 @@ def cases(tier, seed):
                     out.append({"functional": functional, "method": method, "family": fam, "dtype": "float64", "n": 24,
                                 "shape": "n", "bck_method": bck, "placement": placement, "guess": "zero",
                                 "cot": "dense", "plane": 0, "seed": 0})
+    # objects holding a non-differentiable tensor before / after the differentiable ones
+    for functional in ("rootfinder", "equilibrium", "minimize"):
+        fam = "lcosh" if functional == "minimize" else "tanh06"
+        for method in (("newton", "broyden1") if quick else _methods(functional)):
+            for bck in (("exactsolve", "bicgstab") if quick else BCKS):
+                for (n, kind) in ((2, "2n"), (8, "n")):
+                    for placement in ("editable_ndfirst", "editable_ndlast", "nnmodule_ndfirst", "nnmodule_ndlast"):
+                        out.append({"functional": functional, "method": method, "family": fam, "dtype": "float64",
+                                    "n": n, "shape": kind, "bck_method": bck, "placement": placement,
+                                    "guess": "zero", "cot": "dense", "plane": 0, "seed": 0})
     out.sort(key=lambda c: (c["plane"], c["placement"] != "explicit", c["n"] * (2 if c["shape"] == "2n" else 1)))
     return out
 
@@ -273,6 +284,57 @@ def _scenario(cfg, prob, leaves):
         else:
             def pure(y, *lv):
                 return base(y, *lv)
+        return mod.forward, (), diff, pure
+
+    if placement in ("editable_ndfirst", "editable_ndlast", "nnmodule_ndfirst", "nnmodule_ndlast"):
+        # the object holds a NON-differentiable tensor next to the differentiable ones, listed first / last
+        # (frozen parameter of a torch.nn.Module): c is effectively c + nd0
+        cidx = names.index("c")
+        nd0 = (0.05 * torch.cos(torch.arange(prob.tensors[cidx].numel(), dtype=torch.float64) * 1.3 + 0.2)
+               ).reshape(prob.shape).to(prob.dtype)
+        first = placement.endswith("first")
+        order = (["nd0"] + list(names)) if first else (list(names) + ["nd0"])
+
+        def withnd(get):
+            q = [get(nm) for nm in names]
+            q[cidx] = q[cidx] + get("nd0")
+            return q
+        if placement.startswith("editable"):
+            class EModF(xt.EditableModule):
+                def __init__(self):
+                    self.nd0 = nd0
+                    for nm, t in zip(names, leaves):
+                        setattr(self, nm, t)
+
+                def forward(self, y):
+                    return base(y, *withnd(lambda nm: getattr(self, nm)))
+
+                def getparamnames(self, methodname, prefix=""):
+                    if methodname == "forward":
+                        return [prefix + nm for nm in order]
+                    raise KeyError(methodname)
+            mod = EModF()
+            diff = list(zip(names, leaves))
+        else:
+            class ModF(torch.nn.Module):
+                def __init__(self):
+                    super().__init__()
+                    for nm in order:
+                        if nm == "nd0":
+                            self.nd0 = torch.nn.Parameter(nd0.clone(), requires_grad=False)
+                        else:
+                            setattr(self, nm, torch.nn.Parameter(leaves[names.index(nm)].detach().clone()))
+
+                def forward(self, y):
+                    return base(y, *withnd(lambda nm: getattr(self, nm)))
+            mod = ModF()
+            diff = [(nm, getattr(mod, nm)) for nm in names]
+            extra["module"] = mod
+
+        def pure(y, *lv):
+            ts = list(lv[:len(names)])
+            ts[cidx] = ts[cidx] + nd0
+            return base(y, *ts)
         return mod.forward, (), diff, pure
 
     if placement == "mixed":
